@@ -214,8 +214,8 @@ Lemma write_genotype_chars : forall v44 g b, In b (write_genotype v44 g) ->
   b = 47 \/ b = 124 \/ b = 46 \/ 48 <= b <= 57.
 Proof.
   intros [|] g b H; unfold write_genotype in H.
-  - now apply write_gt_tail_chars.
+  - now apply (write_gt_tail_chars g).
   - destruct g as [|[p ph] g]; [destruct H|]. apply in_app_or in H. destruct H as [H|H].
     + pose proof (pos_text_chars p) as Hc. rewrite Forall_forall in Hc. destruct (Hc b H); tauto.
-    + now apply write_gt_tail_chars.
+    + now apply (write_gt_tail_chars g).
 Qed.
